@@ -319,6 +319,12 @@ impl rip_kernel::verif::Hooks for SchedHooks {
     fn fail(&self, name: &'static str) -> bool {
         ENV.with(|e| e.borrow().as_ref().map(|e| e.fail(name)).unwrap_or(false))
     }
+    fn spawn(&self, name: &'static str, fut: rip_kernel::verif::SpawnedFuture) -> Option<rip_kernel::verif::SpawnedFuture> {
+        ENV.with(|e| match e.borrow().as_ref() {
+            Some(env) => env.spawn(name, fut),
+            None => Some(fut),
+        })
+    }
     fn retry_sleep(&self, name: &'static str) -> bool {
         if let Some((s, id)) = current() {
             s.yield_at(id, name, None);
@@ -342,6 +348,10 @@ pub trait ActorEnv {
     /// Fault injection (environment answer "error") for the operation behind `name`.
     fn fail(&self, _name: &str) -> bool {
         false
+    }
+    /// Spawn seam: keep the task (to run it as an actor of its own) and return `None`.
+    fn spawn(&self, _name: &str, fut: rip_kernel::verif::SpawnedFuture) -> Option<rip_kernel::verif::SpawnedFuture> {
+        Some(fut)
     }
 }
 
